@@ -58,3 +58,8 @@ package timecache
 //@   ensures refreshed: result ==> tc.m[s] == now + tc.ttl
 //@   ensures others: forall k string :: k != s ==> (k in tc.m) == lin(k in tc.m) && tc.m[k] == lin(tc.m[k])
 //@   ensures released: !held(tc.lk)
+
+// The sweeper goroutine of a time cache ends when its context is done (property C14).
+//@ func background
+//@   property C14
+//@   cancellable ctx
